@@ -77,8 +77,34 @@ func BinInt(op token.Token, x, y *Int) (res *Int, wrapped bool) {
 	// everything else is a new number whose form is computed here
 	if res != nil && res.Lin == nil {
 		res.Lin = linBin(op, x, y, res, wrapped)
+		refineFromLin(res)
 	}
 	return res, wrapped
+}
+
+// refineFromLin tightens the interval of a value from its linear form: if the form determines the value
+// (it is exact, or valid modulo 2^W) and the range of the expression lies inside one window of 2^W
+// consecutive integers, the value's interval is that range shifted into the type.
+func refineFromLin(r *Int) {
+	l := r.Lin
+	if l == nil || r.W >= 62 || (l.Mod != 0 && l.Mod < r.W) {
+		return
+	}
+	lo, hi, ok := l.rangeOfLin()
+	if !ok {
+		return
+	}
+	span := int64(1) << uint(r.W)
+	tlo, _ := rangeOf(r.W, r.Signed)
+	k1, k2 := floorDiv(lo-tlo, span), floorDiv(hi-tlo, span)
+	if k1 != k2 {
+		return
+	}
+	lo, hi = lo-k1*span, hi-k1*span
+	if nlo, nhi := max64(r.Lo, lo), min64(r.Hi, hi); (nlo > r.Lo || nhi < r.Hi) && nlo <= nhi {
+		r.Lo, r.Hi = nlo, nhi
+		r.normalize()
+	}
 }
 
 func binInt0(op token.Token, x, y *Int) (res *Int, wrapped bool) {
@@ -107,8 +133,20 @@ func binInt0(op token.Token, x, y *Int) (res *Int, wrapped bool) {
 		} else if y.Lo >= 0 {
 			lo, hi = 0, y.Hi
 		}
+		// x & ^(2^k-1) rounds x down to a multiple of 2^k: monotone, so the bounds carry over
+		for _, p := range [][2]*Int{{x, y}, {y, x}} {
+			if m, isc := p[1].Const(); isc && p[1].allBitsConst() && m > 0 && p[0].Lo >= 0 && p[0].Hi < math.MaxInt64 && w < 63 {
+				full := int64(1)<<uint(w) - 1
+				if signed {
+					full = int64(1)<<uint(w-1) - 1
+				}
+				low := ^m & full
+				if low&(low+1) == 0 && low != 0 && m|low == full {
+					lo, hi = max64(lo, p[0].Lo&m), min64(hi, p[0].Hi&m)
+				}
+			}
+		}
 		r := newInt(w, signed, bits, lo, hi, d)
-		// x & mask where mask == 2^k-1 keeps an affine form only if no bits dropped: skip
 		return r, false
 	case token.OR:
 		bits := make([]Bit, w)
@@ -818,10 +856,10 @@ func joinInt0(t, f *Int, gate *Bit, extra Deps) *Int {
 			continue
 		}
 		same = false
-		if t.VID == f.VID && (a.K == BSrc && b.IsConst() || b.K == BSrc && a.IsConst()) {
+		if t.VID == f.VID && ((a.K == BSrc || a.K == BFn) && b.IsConst() || (b.K == BSrc || b.K == BFn) && a.IsConst()) {
 			// two refinements of one and the same number: a bit that one path
 			// learned to be constant is still that number's bit
-			if a.K == BSrc {
+			if a.K == BSrc || a.K == BFn {
 				bits[i] = a
 			} else {
 				bits[i] = b
